@@ -101,6 +101,17 @@ func buildCmpGrid() {
 	num("di16", "-2")
 	cmpData["du64"] = uint64(9007199254740993)
 	num("du64", "9007199254740993")
+	cmpData["du63"] = uint64(1) << 63
+	num("du63", "9223372036854775808")
+	cmpData["dumax"] = uint(math.MaxUint64)
+	num("dumax", "18446744073709551615")
+	num("9223372036854775808", "9223372036854775808")
+	// negative numbers of 17 to 34 digits (a negative number can only be written with unary minus)
+	num("(-12345678901234567)", "-12345678901234567")
+	num("(-12345678901234566)", "-12345678901234566")
+	num("(0 - 12345678901234567)", "-12345678901234567")
+	num("(-1.0000000000000000000001)", "-1.0000000000000000000001")
+	num("(-1234567890123456789012345678901234)", "-1234567890123456789012345678901234")
 	cmpData["dup"] = uintptr(7)
 	num("dup", "7")
 	cmpData["dbig"] = int64(9007199254740993)
